@@ -1,7 +1,7 @@
 (* C08 — evaluation entry points for the correspondence check (no proofs).
    harness/py/props/c08.py writes case files that import this module. *)
 From Coq Require Import List ZArith Bool Arith NArith.
-From Verif Require Import Model.C08_Guards Model.C08_Panic Gen.C08_Consts.
+From Verif Require Import Model.C08_Guards Model.C08_Guards2 Model.C08_Panic Gen.C08_Consts.
 Import ListNotations.
 Local Open Scope Z_scope.
 
@@ -139,3 +139,26 @@ Fixpoint has_goexit (fuel : nat) (ss : list stmt) : bool :=
                     | _ => false end) ss
   end.
 Definition prog_has_goexit (p : program) : bool := existsb (has_goexit 50) p.
+
+(* ---- phase 4 ---------------------------------------------------------------- *)
+(* part A: the value-shape guards (nil map store / read, nil struct pointer, $assertType) *)
+Definition gcase2_model_ok (c : gcase) : bool :=
+  match impl_op2 (g_op c) (g_args c) with
+  | Some r => gres_eqb r (g_expect c)
+  | None => false
+  end.
+Definition gmismatches2 (cs : list gcase) : list N := idx_where gcase2_model_ok 0%N cs.
+
+(* part B: what C08_run_ends_clean / C08_defer_lifo_exactly_once state about the final state of ImplPanic,
+   evaluated on the generated programs (out of fuel: no claim) *)
+Definition impl_clean (vr : variant) (fuel : nat) (p : program) : bool :=
+  match impl_fun vr fuel p 0 0 wrapper j_init with
+  | None => true
+  | Some (_, s) =>
+      match j_deferStack s, j_panicStack s with
+      | [], [] => (j_offset s =? 0) &&
+                  forallb (fun e => match list_get (j_lists s) (fst e) with [] => true | _ => false end) (j_lists s)
+      | _, _ => false
+      end
+  end.
+Definition bunclean (cs : list bcase) : list N := idx_where (fun c => impl_clean cur_variant FUEL (b_prog c)) 0%N cs.
